@@ -14,7 +14,8 @@ EXPLANATION = ('Decided on the MIR, for symbolic tables and timestamps: (L) Time
                'exactly outside end <= ts < start otherwise (southern hemisphere), standard time when a switch instant cannot be computed. '
                '(D) the switch instants: Jn is day n of the year without counting 29 February (year_doy_to_days skips the leap day exactly from n = 60 on '
                'in leap years), n is the zero-based day n+1, Mm.w.d is the w-th (5 = last) d-weekday of month m taken from weekdays_in_month, whose '
-               'elements are first-match + 7k within the month; the local instant is 86_400 * day + time of the rule. Not decided: the calendar kernels '
+               'result is, for every month length 28..31, every weekday of the 1st (its day number 7q + r, q symbolic, through the real days_to_wday) and '
+               'every asked weekday, exactly the ascending list of the days of the month with that weekday (196 cases); the local instant is 86_400 * day + time of the rule. Not decided: the calendar kernels '
                '(C01/C02), reading the year of the rule from the UTC timestamp (the property excludes switch-overs near 1 January), the byte-level '
                'decoding of the file beyond C19, that the system file is the one read.')
 META = {
@@ -594,6 +595,84 @@ def decoding(ctx, facts):
                     f'seen {sorted(map(str, tt))} and {sorted(map(str, lt))}')
 
 
+WDAY = 'util::date::convert::days_to_wday'
+DTDAYS = 'util::date::convert::date_to_days'
+
+
+def weekday_lists(ctx, facts):
+    """(D3) weekdays_in_month(year, month, w) is the ascending list of exactly the days d of the month with weekday(d) == w.
+    Finite partition: month length 28..31 x (day number of the 1st) mod 7 x w; the day number of the 1st is 7 q + r with q symbolic, so
+    days_to_wday (its real body) is evaluated for every week at once.  Expected weekday of day d: (r + d) mod 7 (0 = Sunday; day number 0
+    is a Monday, which C02 decides for days_to_wday on all 2^32 days)."""
+    if not ctx.anchor(facts.bodies, WIM, 'C18 weekday lists'):
+        return
+    span = facts.bodies[WIM]['span']
+    I32 = {'k': 'int', 's': True, 'bits': 32, 'name': 'i32'}
+    U32 = {'k': 'int', 's': False, 'bits': 32, 'name': 'u32'}
+    total = good = 0
+    N = Numeric(ctx, 'default', max_disj=300, max_steps=400_000)
+    I = N.I
+    Q = D.sym_vid(-300_000_000, 300_000_000, 'week')
+    cur = {}
+
+    def k_ymd(I_, st, args, dty, site):
+        s1, s2 = st.clone(), st.clone()
+        r = ('t', (I_.top(s1, U32, 'doy', lo=1, hi=366), const_int(cur['len'], 'u32')))
+        return [(s1, ok(r)), (s2, err(I_.top(s2, dty['args'][1], 'e')))]
+
+    def k_dtd(I_, st, args, dty, site):
+        s1, s2 = st.clone(), st.clone()
+        if not (args[2][0] == 'i' and D.get_iv(st, args[2][1]) == (1, 1)):
+            cur['bad'] = 'the day number of the month is not taken from date_to_days(year, month, 1)'
+        s1.iv[Q] = (-300_000_000, 300_000_000)
+        y = I_.binop(s1, 'Mul', ('i', Q, 'i32'), const_int(7, 'i32'), I32, None, None)
+        y = I_.binop(s1, 'Add', y, const_int(cur['r'], 'i32'), I32, None, None)
+        return [(s1, ok(y)), (s2, err(I_.top(s2, dty['args'][1], 'e')))]
+    I.contracts[YMD] = k_ymd
+    I.contracts[DTDAYS] = k_dtd
+    m_push = I.find_model('std::vec::Vec::<T, A>::push')
+
+    def push(I_, st, args, dty, site):
+        st.trace = st.trace + (('push', args[1]),)
+        return m_push(I_, st, args, dty, site)
+    I.models['std::vec::Vec::<T, A>::push'] = push
+    I.return_partition[WIM] = lambda I_, st, v: id(st)
+    I.unroll_for[WIM] = 9
+    for ln in (28, 29, 30, 31):
+        for r in range(7):
+            for w in range(7):
+                cur.clear()
+                cur.update({'len': ln, 'r': r})
+                label = f'{WIM}[{ln} days, 1st = {r} mod 7, weekday {w}]'
+                N.run(WIM, label=label, overrides={'weekday': lambda I_, st, ty, w=w: const_int(w, 'u8')}, variants=('fixed',))
+                want = [d for d in range(1, ln + 1) if (r + d) % 7 == w]
+                total += 1
+                msg = cur.get('bad')
+                nsome = 0
+                for args, st0, outs in N.results.get(label, []):
+                    for st, rv in outs:
+                        if rv[0] != 'e' or 1 not in rv[2]:
+                            continue          # None: a month or year the kernels reject
+                        nsome += 1
+                        got = []
+                        for e in st.trace:
+                            if isinstance(e, tuple) and e and e[0] == 'push':
+                                v = e[1]
+                                iv = D.get_iv(st, v[1]) if v[0] == 'i' else None
+                                got.append(int(iv[0]) if iv is not None and iv[0] == iv[1] else None)
+                        if got != want and msg is None:
+                            msg = f'a month of {ln} days whose 1st has day number = {r} (mod 7), weekday {w}: the list is {got}, the calendar has {want}'
+                if nsome == 0 and msg is None:
+                    msg = f'a month of {ln} days, weekday {w}: no list is returned'
+                if msg:
+                    ctx.finding(f'C18:WEEKDAYS|{ln}|{r}|{w}', 'C18-D3 weekday lists', span, f'weekdays_in_month: {msg}')
+                else:
+                    good += 1
+    ctx.rule('C18-D3 weekdays_in_month lists exactly the days of the month with the asked weekday, ascending (month length x first day mod 7 x weekday)',
+             total, good, floor=196)
+    N.judge(kinds=('ARITH', 'BOUNDS', 'CAST', 'UNWRAP', 'PANIC', 'STDPRE'), allowed_causes=())
+
+
 def check(ctx):
     N0 = Numeric(ctx)
     facts = N0.facts
@@ -603,6 +682,7 @@ def check(ctx):
     lookup_rule(ctx, facts)
     rule_eval(ctx, facts)
     rule_days(ctx, facts)
+    weekday_lists(ctx, facts)
     leap_shift(ctx, facts)
     resolve_wiring(ctx, facts)
     decoding(ctx, facts)
